@@ -2542,7 +2542,7 @@ func lcConfirm(ctx *Ctx, all []*lcResult) []*lcResult {
 func init() {
 	register(&Engine{
 		Name: "lts.cli",
-		Rule: "real kmipclient.Client over an in-memory fault-injecting transport and a scripted echo server (answers possibly out of order), verif yield points driven by a director; I/O indices, time scale and retry budget measured by dry runs; (a) C10: N in {2,3,4} concurrent callers, one caller's context ended (cancellation / deadline) exactly at cli.send.loaded / cli.roundtrip.afterSend / cli.read.beforeRx, while its request is inside Write, while it is queued for the client behind a call whose response is late, or by a timer; its response early / late / never; the same in the retry that follows a reconnect (and at cli.beforeReconnect); a second abandoned call after the first; then a further call; (b) C11: after a warm-up exchange, every Read and Write index of the next exchange x {EOF, closed, reset, timeout, unexpected EOF, partial message, short write, server closes after replying, write-only reset/closed, failure reported after delivery} x {when invoked, when data arrives} x next action {call, 3 calls, Close, Close during the pending call, a second caller queued for the client}, pairs of faults hitting the reconnection (dial, write, read); (c) every I/O operation of Dial's version negotiation; (d) Close() at each yield point of a pending call (in line and concurrently); (e) server dropping 1..budget+1 successive connections (EOF and closed); (f) a write error with a queued caller while the cancellation of the connection context is delayed by polling it (window of 2c3eae7); (g) a dial that blocks until the caller's context ends; race pass: the Close/reconnect scenarios under the race detector; scenarios run in child processes (a crash is a violation) and are repeated under random perturbation at the yield points; timing-only verdicts and non-member outcomes are confirmed by re-runs; distinct = distinct scenario+outcome",
+		Rule: "real kmipclient.Client over an in-memory fault-injecting transport and a scripted echo server (answers possibly out of order), verif yield points driven by a director; I/O indices, time scale and retry budget measured by dry runs; (a) C10: N in {2,3,4} concurrent callers, one caller's context ended (cancellation / deadline) exactly at cli.send.loaded / cli.roundtrip.afterSend / cli.read.beforeRx, while its request is inside Write, while it is queued for the client behind a call whose response is late, or by a timer; its response early / late / never; the same in the retry that follows a reconnect (and at cli.beforeReconnect); a second abandoned call after the first; then a further call; (b) C11: after a warm-up exchange, every Read and Write index of the next exchange x {EOF, closed, reset, timeout, unexpected EOF, partial message, short write, server closes after replying, write-only reset/closed, failure reported after delivery} x {when invoked, when data arrives} x next action {call, 3 calls, Close, Close during the pending call, a second caller queued for the client}, pairs of faults hitting the reconnection (dial, write, read); (c) every I/O operation of Dial's version negotiation; (d) Close() at each yield point of a pending call (in line and concurrently); (e) server dropping 1..budget+1 successive connections (EOF and closed); (f) a write error with a queued caller while the write loop is held at cli.write.reported (window of 2c3eae7, directed; fallbacks: the connection context's mutex held / polled); (g) a dial that blocks until the caller's context ends; a second caller arriving during the re-dial; a call issued while Close() is closing the connection; Dial giving up a healthy connection; (h) a selection of (a)-(g) with the calls made through Batch, an Executor.Then chain, Roundtrip, Request, on a client with the library's middlewares (also: the abandoned call ended by TimeoutMiddleware), on a Clone (original closed / original open with an exchange pending), on a DialCluster client; server-side oracle: one exchange at a time on a connection; the retried error kinds are observed by dry runs; race pass: the Close/reconnect scenarios under the race detector; scenarios run in child processes (a crash is a violation) and are repeated under random perturbation at the yield points; timing-only verdicts and non-member outcomes are confirmed by re-runs; distinct = distinct scenario+outcome",
 		Run:  runLtsCli,
 	})
 }
